@@ -24,8 +24,11 @@ import c13_tables  # noqa: E402
 
 
 def child(script, data, timeout):
-    p = subprocess.run([sys.executable, os.path.join(PYS, script)], input=data, timeout=timeout,
-                       stdout=subprocess.PIPE, stderr=subprocess.PIPE, text=True)
+    try:
+        p = subprocess.run([sys.executable, os.path.join(PYS, script)], input=data, timeout=timeout,
+                           stdout=subprocess.PIPE, stderr=subprocess.PIPE, text=True)
+    except subprocess.TimeoutExpired:
+        return None
     if p.returncode != 0:
         raise verif.CheckError("%s failed: %s" % (script, p.stderr[-2000:]))
     return json.loads(p.stdout)
@@ -172,7 +175,11 @@ def run(ctx):
     ctx.log("property oracles: %d checks, %d failures" % (ptot, pfail))
 
     # ---- 4. independent consumers (child processes)
-    orc = child("c13_oracle.py", out, 1500)
+    orc = child("c13_oracle.py", out, 3000)
+    timed_out = []
+    if orc is None:
+        timed_out.append("c13_oracle.py")
+        orc = {"failures": [], "counts": {}, "n_failures": 0, "notes": ["independent consumers timed out (overloaded machine?)"]}
     for f in orc["failures"]:
         ctx.violation("c13-oracle:%s:%s" % (f["oracle"], f["request"]),
                       "independent consumer `%s` does not recover the original data from jaq's output" % f["oracle"], f,
@@ -180,7 +187,11 @@ def run(ctx):
     ctx.notes += orc.get("notes", [])
     ctx.log("consumers:", orc["counts"], "failures:", orc["n_failures"])
     rx1 = ctx.harness(["c13", "rx1"])
-    rxo = child("c13_regex.py", rx1, 900)
+    rxo = child("c13_regex.py", rx1, 3000)
+    if rxo is None:
+        timed_out.append("c13_regex.py")
+        rxo = {"failures": [], "n_failures": 0, "checked": 0, "objects": 0, "engine_agree": 0, "engine_differ": 0, "engine_skipped": 0}
+        ctx.notes.append("regex oracle timed out (overloaded machine?)")
     for f in rxo["failures"]:
         ctx.violation("c13-oracle:re:%s:%s:%s" % (f["subject_hex"], f["regex_hex"], f["flags"]),
                       "match offset/length do not address the matched string in Python's character indexing", f,
@@ -193,6 +204,10 @@ def run(ctx):
                       {"subject_hex": l[1], "regex": bytes.fromhex(l[2]).decode(), "flags": l[3], "real": l[4]}, broken=["match_offset_total"])
     ctx.log("regex oracle: %d subjects x regexes, %d match objects, %d failures, engines agree on %d / differ on %d"
             % (rxo["checked"], rxo["objects"], rxo["n_failures"], rxo["engine_agree"], rxo["engine_differ"]))
+
+    if timed_out and not ctx.violations:
+        # nothing was found and an oracle did not finish: that is a machinery problem, not a verdict
+        raise verif.CheckError("oracle child process timed out: %s" % ", ".join(timed_out))
 
     # ---- evidence
     ops = {}
